@@ -981,11 +981,102 @@ fn gen_write_history(r: &mut Rng, start: &Flat, target: &Flat) -> (Vec<Op>, Flat
     (ops, cur)
 }
 
+// ---------------------------------------------------------------- ZoneTree (the set of zones)
+
+#[derive(Clone, Debug)]
+enum TOp { Ins(String, u32), Rem(String) }
+
+fn tname(s: &str) -> Name<Bytes> { Name::bytes_from_str(s).unwrap() }
+/// labels of an absolute name, top-most first
+fn tlabels(s: &str) -> Vec<String> { let mut v: Vec<String> = s.split('.').filter(|x| !x.is_empty()).map(|x| x.to_string()).collect(); v.reverse(); v }
+
+fn gen_tname(r: &mut Rng) -> String {
+    let d = r.below(4);
+    if d == 0 { return ".".to_string(); }
+    let mut v = vec![];
+    for _ in 0..d { v.push(*r.pick(&["a", "b", "c"])); }
+    format!("{}.", v.join("."))
+}
+
+fn tree_cases(cx: &mut Ctx, r: &mut Rng, n_trees: u64) {
+    use domain::zonetree::ZoneTree;
+    for ti in 0..n_trees {
+        let n_ops = r.range(1, 8);
+        let mut ops: Vec<TOp> = vec![];
+        let mut used: Vec<String> = vec![];
+        for k in 0..n_ops {
+            if !used.is_empty() && r.chance(1, 4) && ti % 2 == 1 {
+                let nm = if r.chance(3, 4) { r.pick(&used).clone() } else { gen_tname(r) };
+                ops.push(TOp::Rem(nm));
+            } else {
+                let nm = if !used.is_empty() && r.chance(1, 6) { r.pick(&used).clone() } else { gen_tname(r) };
+                used.push(nm.clone());
+                ops.push(TOp::Ins(nm, 100 + k as u32));
+            }
+        }
+        let ops_s = ops.iter().map(|o| match o { TOp::Ins(n, i) => format!("ti:{}:{}", n, i), TOp::Rem(n) => format!("tr:{}", n) }).collect::<Vec<_>>().join(" ");
+        cx.out.begin(&ops_s);
+        // implementation
+        let mut tree = ZoneTree::new();
+        let mut ids: BTreeMap<String, u32> = BTreeMap::new();
+        let mut errs: Vec<String> = vec![];
+        // specification: a set of apex names
+        let mut set: BTreeMap<Vec<String>, u32> = BTreeMap::new();
+        let mut removed_any = false;
+        for (i, op) in ops.iter().enumerate() {
+            match op {
+                TOp::Ins(n, id) => {
+                    let z = ZoneBuilder::new(tname(n), Class::IN).build();
+                    let res = tree.insert_zone(z);
+                    let want_ok = !set.contains_key(&tlabels(n));
+                    match &res { Ok(()) => { ids.insert(tname(n).to_string().to_ascii_lowercase(), *id); } Err(_) => errs.push(format!("{}:ZoneExists", i)) }
+                    if !removed_any { cx.verdict(res.is_ok() == want_ok, "zonetree_insert_result", &ops_s, &format!("op {} returned {:?}", i, res.is_ok())); }
+                    if want_ok { set.insert(tlabels(n), *id); }
+                }
+                TOp::Rem(n) => {
+                    let res = tree.remove_zone(&tname(n), Class::IN);
+                    if res.is_err() { errs.push(format!("{}:ZoneDoesNotExist", i)); }
+                    let want_ok = set.remove(&tlabels(n)).is_some();
+                    cx.verdict(res.is_ok() == want_ok || removed_any, "zonetree_remove_zone_not_recursive", &ops_s, &format!("remove op {} returned ok={} expected ok={}", i, res.is_ok(), want_ok));
+                    removed_any = true;
+                }
+            }
+        }
+        let es = if errs.is_empty() { "-".to_string() } else { errs.join(",") };
+        let idof = |z: Option<&Zone>| -> String { match z { Some(z) => ids.get(&z.apex_name().to_string().to_ascii_lowercase()).map(|i| i.to_string()).unwrap_or_else(|| "?".into()), None => "-".into() } };
+        let class = if removed_any { "zonetree_remove_zone_not_recursive" } else { "zonetree_find_not_closest_zone" };
+        // every name over the alphabet to depth 3 (+ one deeper) as find / get queries
+        let mut qs: Vec<String> = vec![".".into()];
+        for a in ["a", "b", "c", "q"] { qs.push(format!("{}.", a)); for b2 in ["a", "b", "c"] { qs.push(format!("{}.{}.", b2, a)); if r.chance(1, 3) { for c2 in ["a", "b", "c", "q"] { qs.push(format!("{}.{}.{}.", c2, b2, a)); } } } }
+        qs.push("a.a.a.a.".into());
+        for q in &qs {
+            let f = idof(tree.find_zone(&tname(q), Class::IN));
+            cx.out.case(&format!("tree {} ? f {}", ops_s, q), &format!("F={} E={}", f, es), f != "-", "tree/find");
+            // closest enclosing zone: the zone with the longest apex that is an ancestor-or-self of q
+            let ql = tlabels(q);
+            let want = (0..=ql.len()).rev().find_map(|k| set.get(&ql[..k].to_vec())).map(|i| i.to_string()).unwrap_or_else(|| "-".into());
+            cx.verdict(f == want, class, &format!("tree {} ? f {}", ops_s, q), &format!("find_zone gives {} expected {}", f, want));
+            if r.chance(1, 3) {
+                let g = idof(tree.get_zone(&tname(q), Class::IN));
+                cx.out.case(&format!("tree {} ? g {}", ops_s, q), &format!("G={} E={}", g, es), g != "-", "tree/get");
+                let want = set.get(&ql).map(|i| i.to_string()).unwrap_or_else(|| "-".into());
+                cx.verdict(g == want, if removed_any { class } else { "zonetree_get_wrong" }, &format!("tree {} ? g {}", ops_s, q), &format!("get_zone gives {} expected {}", g, want));
+            }
+        }
+        let mut l: Vec<u32> = tree.iter_zones().map(|z| *ids.get(&z.apex_name().to_string().to_ascii_lowercase()).unwrap_or(&0)).collect();
+        l.sort();
+        let ls = if l.is_empty() { "-".to_string() } else { l.iter().map(|x| x.to_string()).collect::<Vec<_>>().join(",") };
+        cx.out.case(&format!("tree {} ? l", ops_s), &format!("L={} E={}", ls, es), !l.is_empty(), "tree/list");
+        let mut want: Vec<u32> = set.values().cloned().collect(); want.sort();
+        cx.verdict(l == want, if removed_any { class } else { "zonetree_iter_wrong" }, &format!("tree {} ? l", ops_s), &format!("iter_zones gives {:?} expected {:?}", l, want));
+    }
+}
+
 // ---------------------------------------------------------------- main
 
 struct Ctx { out: Out, rt: tokio::runtime::Runtime, seen: BTreeMap<String, u32> }
 
-const KNOWN: [&str; 3] = ["updater_ns_not_cut", "updater_cname_not_special", "special_survives_delete"];
+const KNOWN: [&str; 4] = ["updater_ns_not_cut", "updater_cname_not_special", "special_survives_delete", "zonetree_remove_zone_not_recursive"];
 
 impl Ctx {
     /// Oracle verdict.  The shared collector keeps the first 200 failure lines only, so failures of the
@@ -1230,6 +1321,23 @@ fn main() {
             let bo = builder_ops(&z, &mut r);
             cx.eval("builder", &bo, Some(&z), &qs[..qs.len() / 2], None);
         }
+        // (1b) record lists that Zonefile::insert accepts but that cannot be built: a delegation with DS
+        //      only (MissingNs) or a CNAME at the apex (CnameAtApex) -- exactly these must fail, as a whole
+        if i % 5 == 3 {
+            let mut z2 = z.clone();
+            let which = r.below(3);
+            if which != 1 { let n = Rel::apex().child("q").child("d"); z2.add(&Rec { owner: n, rtype: T_DS, ttl: 120, rd: Rd::Tok(777) }); }
+            if which != 0 { for t in z2.types_at(&Rel::apex()) { z2.m.remove(&(Rel::apex(), t)); } z2.add(&Rec { owner: Rel::apex(), rtype: T_CNAME, ttl: 5, rd: Rd::Tok(778) }); }
+            let zo2 = zonefile_ops(&z2, &mut r);
+            if let Some(b) = cx.run(&zo2) {
+                let failed = b.errs.iter().any(|e| e.ends_with(":ZoneErrors"));
+                let rejected = b.errs.iter().any(|e| !e.ends_with(":ZoneErrors"));
+                cx.out.check(failed && !rejected, "zonefile_unbuildable_not_rejected", &show_ops(&zo2), &format!("errors: {:?}", b.errs));
+            }
+            cx.eval("zonefile_unbuildable", &zo2, None, &qs[..4.min(qs.len())], None);
+            let b = cx.run(&zo).map(|b| b.errs.is_empty()).unwrap_or(false);
+            cx.out.check(b, "zonefile_buildable_rejected", &show_ops(&zo), "a well-formed record list was not built");
+        }
         // (2) histories ending in z
         let start = if r.chance(1, 3) { let mut s = Flat::default(); s.add(&soa_rec(1)); s } else { gen_flat(&mut r) };
         if !start.wf() { continue; }
@@ -1248,5 +1356,7 @@ fn main() {
             }
         }
     }
+    let n_trees = (if a.thorough { 3000 } else { 120 }) * a.scale;
+    tree_cases(&mut cx, &mut r, n_trees);
     cx.out.finish(&[]);
 }
